@@ -19,9 +19,10 @@ impl Data {
 
     /// Sets the cursor position.
     ///
-    /// The given position must be <= the length of the buffer to be valid.
+    /// This clamps the position to the length of the buffer, e.g., when seeking to a virtual
+    /// position whose uncompressed offset is past the end of the block.
     pub fn set_position(&mut self, position: usize) {
-        self.pos = position;
+        self.pos = position.min(self.len);
     }
 
     pub fn len(&self) -> usize {
